@@ -553,7 +553,12 @@ def _contains_node(root, node):
     return any(x is node for x in ast.walk(root))
 
 
-RULES = [rule_reserved, rule_vocabulary, rule_names, rule_templates, rule_choices, rule_sensitivity, rule_buffers, rule_castmatrix, rule_concat_cast, rule_visit_unconditional, rule_shadow, rule_hint_position, rule_sensitivity_merge, rule_interface_names, rule_refspec, rule_lexical]
+def rule_visit_stateless(run):
+    from ..rules import roles as _r
+    _r.run_memo_rule(run, "F-VISIT.memo")   # every traversal (driver check, sensitivity, definite assignment) sees the whole statement
+
+
+RULES = [rule_reserved, rule_vocabulary, rule_names, rule_templates, rule_choices, rule_sensitivity, rule_buffers, rule_castmatrix, rule_concat_cast, rule_visit_unconditional, rule_shadow, rule_hint_position, rule_sensitivity_merge, rule_interface_names, rule_refspec, rule_lexical, rule_visit_stateless]
 LEVEL = "other"
 EXPLANATION = (
     "Legality clauses that are properties of the back end's own tables and templates, decided for all designs: the "
